@@ -217,6 +217,9 @@ func ReadTagLength(reader Asn1Reader) (*TagLength, error) {
 	if err != nil {
 		return nil, err
 	}
+	if !length.Length.IsInt64() {
+		return nil, fmt.Errorf("length of element is not supported: %s", length.Length.String())
+	}
 	return &TagLength{Tag: *tag, Length: *length}, nil
 }
 
@@ -259,7 +262,15 @@ func PeekTag(reader Asn1Reader, offset int) (*asn1crypto.Tag, error) {
 	return &tag, nil
 }
 
+// maxExpectedBytes is the upper bound of a single primitive value or of an element read as a whole
+// (ReadStruct limits its elements to 81920 bytes of content)
+const maxExpectedBytes = 81920 + 16
+
 func ReadExpectedBytes(reader Asn1Reader, byteSize int) ([]byte, error) {
+	if byteSize < 0 || byteSize > maxExpectedBytes {
+		//never allocate according to a length field the input does not back with data
+		return nil, fmt.Errorf("length %d of element is not supported", byteSize)
+	}
 	readBytes := make([]byte, byteSize)
 	err := ReadExpectedBytesRecursive(reader, byteSize, &readBytes, 0)
 	if err != nil {
